@@ -213,6 +213,8 @@ pub fn gen_object(rng: &mut Rng, idx: usize, sender: &SenderSpec, max_symbols: u
     if rng.chance(0.3) {
         o.etag = Some(format!("etag-{}-{}", idx, rng.pick(&HOSTILE_STRINGS)));
     }
+    // the typed builders (CreateFromBuffer / CreateFromStream / CreateFromFile) instead of ObjectDesc::create_from_*
+    o.via_builder = rng.chance(0.1);
     // a paced object now and then (target acquisition): a deadline already past, a zero duration, a few milliseconds
     if rng.chance(0.05) {
         o.target = Some(match rng.below(5) {
